@@ -30,6 +30,9 @@ def run(ctx, chk):
     chk.rule('C02.2', 'D', 'decoder clock counts are multiples of 4; emitted increments fit the sign-extended imm8', floor=500)
     chk.rule('C02.4', 'D', 'value level: abstract execution of the emitted x86-64 bytes changes R15W by exactly the machine '
              'cycles the interpreter path charges, for every encoding, operand value and branch outcome', floor=500)
+    chk.rule('C02.5', 'D', 'the cycle counter survives the call frame: the entry trampoline loads Registers.cycles (with the '
+             'cycles a preceding interrupt dispatch left pending) into R15W and the exit trampoline stores R15W back',
+             floor=2)
     chk.rule('C02.3', 'D', 'per-instruction constants only: who may write Registers.cycles', floor=5)
     facts = ctx.facts('jit')
     prog = ctx.program('jit')
@@ -113,6 +116,7 @@ def run(ctx, chk):
             chk.ok('C02.2', name, nontrivial=False)
     from .. import jitsem
     jitsem.apply_rule(ctx, chk, 'C02.4', lambda c: c == 'cycles')
+    jitsem.apply_frame_rule(ctx, chk, 'C02.5', lambda c: c in ('load:cycles', 'store:cycles'))
     jitsem.suppress_subsumed(ctx, chk, ('C02.1',))
     # rule 3: writers of Registers.cycles
     allowed = {'interpreter::run_next_op', 'interpreter::interp_jump', 'interpreter::interp_jump_relative',
